@@ -71,6 +71,17 @@ def cleanup_cases(ctx):
                     continue
                 for kind in BASE:
                     out.append((c, ops, [0] * (sends[0] + 1) + [(TAGS[kind],)], [(TAGS["SocketTimeout"],)], rbo))
+        # a call rejected for its ARGUMENT on a warm connection: nothing is sent, a pool discards the client, and the interruption
+        # lands inside the close() of that discard
+        warm = (0, 0, b"w", b"1", 0, False, None)
+        for bad in ((0, 0, b"bad key", b"x", 0, False, None), (3, b"bad key", None), (13, b"k", "soon", False)):
+            for fop, frep in FOLLOW[:2]:
+                ops = [warm, bad, fop, fop]
+                rbo = {0: b"STORED\r\n", 1: b"", 2: frep, 3: frep}
+                dry = cs.run_impl(c, [warm], [], [], (), None, None, {0: b"STORED\r\n"})
+                n0 = sum(1 for e in dry[1] if e[0] != 8)
+                for kind in BASE:
+                    out.append((c, ops, [0] * n0 + [(TAGS[kind],)], [], rbo))
     return out
 
 
@@ -160,7 +171,9 @@ def search(ctx):
             else:
                 # a call that was not itself interrupted must see its own reply
                 for i, x in enumerate(results[1:], 1):
-                    exp_ok = {9: ("o", ("bool", False)), 3: ("o", ("NoneType", None)), 0: ("o", ("bool", False))}[ops[i][0]]
+                    exp_ok = {9: ("o", ("bool", False)), 3: ("o", ("NoneType", None)), 0: ("o", ("bool", False))}.get(ops[i][0])
+                    if exp_ok is None or ops[i] not in [f[0] for f in FOLLOW]:
+                        continue
                     first_fault_consumed = world.pos >= len(sc) and world.cpos >= len(ch)
                     if first_fault_consumed and results[0][0] == "e" and x != exp_ok and i == 2:
                         why = "call %d after the interruption returned %r, its own reply says %r" % (i, x, exp_ok)
